@@ -10,6 +10,7 @@ import (
 	"regexp"
 	"sort"
 	"strings"
+	"sync"
 	"testing"
 	"time"
 
@@ -514,6 +515,33 @@ func genC20(t *rapid.T) c20Case {
 			c.Files["m2.sysl"] = t2
 		}
 	}
+	// A third of the models is spread over files: the generated text is the root of an import closure with a
+	// diamond, a cycle back to an imported file, a file imported twice and files met only late.
+	if rapid.IntRange(0, 2).Draw(t, "multifile") == 0 {
+		cl["model_in_several_files"] = true
+		order := [][]string{{"aux/a", "aux/b"}, {"aux/b", "aux/a"}}[rapid.IntRange(0, 1).Draw(t, "rootimports")]
+		c.Files["m.sysl"] = "import " + order[0] + "\nimport " + order[1] + "\n\n" + c.Files["m.sysl"]
+		c.Files["aux/a.sysl"] = "import b\nimport c\n\nAuxA:\n    !type T:\n        id <: int\n    Ep:\n        AuxB <- Ep\n"
+		c.Files["aux/b.sysl"] = "import c\nimport /aux/a\nimport d\n\nAuxB:\n    Ep:\n        AuxD <- Ep\n"
+		c.Files["aux/c.sysl"] = "import a\nimport d\nimport e\n\nAuxC:\n    !type T:\n        a <: AuxA.T\n"
+		c.Files["aux/d.sysl"] = "import e\n\nAuxD:\n    Ep: ...\n"
+		c.Files["aux/e.sysl"] = "AuxE:\n    Ep: ...\n"
+	}
+	// global options (well-formed; they change how the model is loaded, not what the command does)
+	switch rapid.IntRange(0, 7).Draw(t, "globalopt") {
+	case 0:
+		c.Args = append([]string{"--no-different-version-check"}, c.Args...)
+		cl["opt_no_different_version_check"] = true
+	case 1:
+		c.Args = append([]string{fmt.Sprintf("--max-import-depth=%d", rapid.IntRange(0, 3).Draw(t, "maxdepth"))}, c.Args...)
+		cl["opt_max_import_depth"] = true
+	case 2:
+		c.Args = append([]string{"--no-forced-fetch", "--log=debug"}, c.Args...)
+		cl["opt_no_forced_fetch_debug_log"] = true
+	case 3:
+		c.Args = append([]string{"--root=."}, c.Args...)
+		cl["opt_root"] = true
+	}
 	for k := range cl {
 		c.Classes = append(c.Classes, k)
 	}
@@ -522,6 +550,11 @@ func genC20(t *rapid.T) c20Case {
 }
 
 // ---------- oracle ----------
+
+var (
+	c20HangMu sync.Mutex
+	c20Hangs  = map[string]bool{}
+)
 
 var c20CrashRe = regexp.MustCompile(`(?m)^(panic: .*|fatal error: .*|goroutine \d+ \[.*)$`)
 
@@ -544,6 +577,7 @@ func c20Exec(c c20Case, timeout time.Duration) (*c20Run, error) {
 	}
 	defer os.RemoveAll(dir)
 	for n, s := range c.Files {
+		_ = os.MkdirAll(filepath.Dir(filepath.Join(dir, n)), 0o755)
 		if err := os.WriteFile(filepath.Join(dir, n), []byte(s), 0o644); err != nil {
 			return nil, err
 		}
@@ -586,10 +620,6 @@ func checkC20(x *X, c c20Case) error {
 		x.Class(cl)
 	}
 	x.Class("cmd_" + c.Cmd)
-	r, err := c20Exec(c, 60*time.Second)
-	if err != nil {
-		return fmt.Errorf("harness: %v", err)
-	}
 	main := "m.sysl"
 	if _, ok := c.Files[main]; !ok {
 		for n := range c.Files {
@@ -597,12 +627,29 @@ func checkC20(x *X, c c20Case) error {
 		}
 	}
 	desc := fmt.Sprintf("sysl %s\n---- %s\n%s", strings.Join(c.Args, " "), main, c.Files[main])
+	// a command that does not end is confirmed with a longer bound; the verdict is remembered for this
+	// process so that shrinking does not wait for the same hang again and again
+	ckey := fmt.Sprintf("%x", hash64(fmt.Sprint(c.Args, c.Files)))
+	c20HangMu.Lock()
+	hung := c20Hangs[ckey]
+	c20HangMu.Unlock()
+	if hung {
+		return finding(c.Cmd+"@timeout", "command did not terminate within 90 s\n%s", desc)
+	}
+	r, err := c20Exec(c, 30*time.Second)
+	if err != nil {
+		return fmt.Errorf("harness: %v", err)
+	}
 	if r.timedOut {
-		r2, _ := c20Exec(c, 120*time.Second)
-		if r2 != nil && r2.timedOut {
-			return finding(c.Cmd+"@timeout", "command did not terminate within 120 s\n%s", desc)
+		r2, _ := c20Exec(c, 90*time.Second)
+		if r2 == nil || r2.timedOut {
+			c20HangMu.Lock()
+			c20Hangs[ckey] = true
+			c20HangMu.Unlock()
+			return finding(c.Cmd+"@timeout", "command did not terminate within 90 s\n%s", desc)
 		}
-		x.Inconclusive("a 60 s overrun did not reproduce")
+		// it ended when given more time (a busy machine): decided by the second run
+		x.Class("first_attempt_overran_30s")
 		r = r2
 	}
 	if m := c20CrashRe.FindString(r.stderr); m != "" {
@@ -636,7 +683,7 @@ func checkC20(x *X, c c20Case) error {
 }
 
 var c20Prop = Define("C20", "cli",
-	"untidy-but-valid models (dangling call targets: app or endpoint; dangling, one-segment, cross-app, self- and mutually recursive type references; empty apps and types; call cycles incl. among ~hidden endpoints of pass-through applications; tables with foreign keys incl. self/cyclic/dangling; passthrough/exclude project views; project lists naming a missing app) x one of 28 command/option sets (pb x4, validate, sd x2 with 1-3 start endpoints, blackbox/groupby, ints x4, datamodel x2, diagram -i/-s/-d, export x6, generate-db-scripts, -delta incl. a model against itself; import of OpenAPI 2/3, XSD and SQL documents drawn by C11's generators) run with the sysl binary built from the working tree; oracle: terminates, no 'panic:'/'fatal error:'/'goroutine' on stderr, non-zero exit carries a message. A crash is keyed by '<command>:<kind>@<first frame in the repository>'. Non-trivial: the model contains at least one untidy element; distinct by (command line, model).",
+	"untidy-but-valid models (dangling call targets: app or endpoint; dangling, one-segment, cross-app, self- and mutually recursive type references; empty apps and types; call cycles incl. among ~hidden endpoints of pass-through applications; tables with foreign keys incl. self/cyclic/dangling; passthrough/exclude project views; project lists naming a missing app) x one of 28 command/option sets (pb x4, validate, sd x2 with 1-3 start endpoints, blackbox/groupby, ints x4, datamodel x2, diagram -i/-s/-d, export x6, generate-db-scripts, -delta incl. a model against itself; import of OpenAPI 2/3, XSD and SQL documents drawn by C11's generators); a third of the models is the root of a six-file import closure (diamond, cycle, repeated import, files met late); half of the runs carry a global option (--no-different-version-check, --max-import-depth=0..3, --no-forced-fetch --log=debug, --root=.) run with the sysl binary built from the working tree; oracle: terminates, no 'panic:'/'fatal error:'/'goroutine' on stderr, non-zero exit carries a message. A crash is keyed by '<command>:<kind>@<first frame in the repository>'. Non-trivial: the model contains at least one untidy element; distinct by (command line, model).",
 	genC20, checkC20)
 
 func TestC20(t *testing.T) {
